@@ -2,6 +2,7 @@
 from fractions import Fraction
 
 from . import c13_ff
+from . import c13_map
 from .common import zlit, natlit, strlit, optlit, listlit, blit, qlit
 
 ID = 'C13'
@@ -20,7 +21,9 @@ RULE = ('mechanisms (evaluated in Coq against the real functions): random intera
         'numbers, trailing attributes) for _parse_block_atom. whole files (validated in Python, not proved): random ASTs of the .ff grammar (macros, variables, '
         'citations, blocks with atoms/interactions/#meta/edges, links with attributes, choices, not(), order prefixes or '
         'order attributes, removals, non-edges, patterns, features, molmeta, modifications) and .itp files (several '
-        'moleculetypes, #ifdef) are printed, loaded and compared field by field; each listed fault is injected at a random '
+        'moleculetypes, #ifdef) and .mapping files (1-3 block mappings of 1-2 residues, shorthand identifiers with and without '
+        '#resid, qualified and bare atom names, integer and float weights, atoms shared between particles, unmapped atoms, reference '
+        'atoms) are printed, loaded and compared field by field; each listed fault is injected at a random '
         'position and must be rejected. non-trivial = a file with >= 2 contexts or a mechanism case exercising an error '
         'or a bracket; distinct by input')
 ASSUMPTIONS = ['whole-file equality is differential testing against an expected value computed from the AST (partial: see DESIGN)',
@@ -197,6 +200,8 @@ def generate(rng, tier):
         cases.append({'kind': 'fault', 'ff': c13_ff.gen_ff(rng), 'fault': c13_ff.FAULTS[i % len(c13_ff.FAULTS)], 'sub': rng.randrange(10 ** 6)})
     for _ in range(60 * k):
         cases.append({'kind': 'itp', 'mols': c13_ff.gen_itp(rng)})
+    for _ in range(100 * k):
+        cases.append({'kind': 'mapping', 'file': c13_map.gen_file(rng)})
     return cases
 
 
@@ -288,6 +293,8 @@ def run_impl(inp):
         except (IOError, KeyError, ValueError):
             return {'msg': None}
         return {'msg': 'a file with the fault %s was loaded without an error' % inp['fault'], 'text': lines}
+    if k == 'mapping':
+        return c13_map.run(inp['file'])
     if k == 'itp':
         lines = c13_ff.print_itp(inp['mols'])
         try:
@@ -353,7 +360,7 @@ def emit(inp, out):
 
 
 def py_prop(inp, out):
-    if inp['kind'] in ('ff', 'fault', 'itp'):
+    if inp['kind'] in ('ff', 'fault', 'itp', 'mapping'):
         return out.get('msg')
     return None
 
@@ -392,6 +399,11 @@ def describe(inp, out):
         d['line_natoms'] = inp['natoms']
         d['line_has_delim'] = '--' in inp['tokens']
         d['line_by_index'] = any(t.isdigit() for t in (out['line'] or [[]])[0]) or any(t.isdigit() for t in inp['tokens'][:2])
+    if inp['kind'] == 'mapping':
+        ms = inp['file']['mappings']
+        d['mapping_residues'] = max(len(m['resnames']) for m in ms)
+        d['mapping_float_weights'] = any(l['weight'] and '.' in l['weight'] for m in ms for l in m['lines'])
+        d['mapping_refs'] = any(m['refs'] for m in ms)
     if inp['kind'] == 'atomlines':
         d['atomlines_accepted'] = out['atoms'] is not None
     if inp['kind'] == 'fault':
